@@ -72,9 +72,27 @@ def run_threads(case):
     return {"viol": viol, "counters": cnt, "sigs": sorted(sigs), "sample": None}
 
 
+def run_multi_evict(case):
+    """A pass that evicts several connections while the triggering request is cancelled at every suspension point (the
+    enumeration of C06's 'multi-evict' part): a connection that is evicted but never closed is a stream that stays open
+    beyond the limit for ever - 'apart from connections it has already evicted and is closing' only excuses the closing."""
+    from .c06 import run_multi_evict as run
+    res = run(case)
+    cnt = {"workloads": 0, "oracle_evaluations": 0, "oracle_full_evaluations": 0, "limit_reached": 0,
+           "evictions_excused": 0, "transports": 0, "oracle_evicted_closed": 0, "max_open_over_limit_excused": 0, "requests": 0}
+    cnt["oracle_evicted_closed"] = res["counters"]["cancels_fired"]
+    cnt["workloads"] = res["counters"]["multi_evict_runs"]
+    cnt["transports"] = res["counters"]["transports_opened"]
+    viol = [{"key": "evicted-connection-never-closed:" + x["key"].split(":", 2)[2], "what": x["what"], "detail": x["detail"]}
+            for x in res["viol"]]
+    return {"viol": viol, "counters": cnt, "sigs": res["sigs"], "sample": None}
+
+
 def run_case(case):
     if case.get("threads"):
         return run_threads(case)
+    if case.get("multi_evict"):
+        return run_multi_evict(case)
     viol = []
     cnt = {"workloads": 0, "oracle_evaluations": 0, "oracle_full_evaluations": 0, "limit_reached": 0,
            "evictions_excused": 0, "transports": 0, "oracle_evicted_closed": 0, "max_open_over_limit_excused": 0, "requests": 0}
@@ -156,4 +174,6 @@ def plan(tier, seed):
             else:
                 scheds.append({"strategy": "pct", "depth": r.choice([1, 2, 3]), "seed": r.randrange(1 << 30)})
         cases.append({"threads": True, "specs": specs, "scheds": scheds, "seed": r.randrange(1 << 30)})
+    for fl in ("asyncio", "trio"):
+        cases.append({"multi_evict": True, "flavor": fl})
     return cases
